@@ -8,3 +8,18 @@ def gen_addr(vc, name):
     if vc.choice(name + ".family", ("inet", "inet6")) == "inet":
         return (vc.opaque(name + ".host", "host"), port)
     return (vc.opaque(name + ".host", "host6"), port, vc.int(name + ".flowinfo", 0, 0xFFFFF), vc.int(name + ".scope_id", 0, 64))
+
+
+def check_frame(vc, snap, label, allowed=()):
+    """frame of an operation: of everything mutable that hangs off the objects in the
+    snapshot (their attributes, and the containers in them, in place or rebound), only what
+    is named in `allowed` may have changed: "a.b" is the attribute b of a (rebound, or the
+    container it holds changed in place), "a.b*" everything below as well.  One obligation per
+    changed path, named after it.  (Slot-level frames inside the allowed containers are stated by the harnesses
+    themselves.)"""
+    for p in vc.changed(snap):
+        ok = False
+        for a in allowed:
+            if p == a or (a.endswith("*") and p.startswith(a[:-1])):
+                ok = True
+        vc.check(ok, label + ".frame[" + p + "]")
